@@ -194,8 +194,25 @@ def param_probes():
         add('option', 'progress', 'progress_bar', pos, lambda v=v: list(progress_bar(iter([1, 2]), v, 2)))
         add('option', 'progress', 'compute_features_2d', pos,
             lambda v=v: compute_features_2d(np.array([sig, sig[::-1]]), fs, fr, {'threshold_kwargs': dict(thr)}, n_jobs=1, progress=v))
+    # ... and on the epoched route (axis=None), where no pool and no progress bar is involved
+    sigs_e = sig[:300].reshape(3, 100)
+    for pos, v in with_odd_unknowns((('valid1', None), ('valid2', 'tqdm'), ('unknown', 'bar'))):
+        add('option', 'progress', 'compute_features_2d(axis=None)', pos,
+            lambda v=v: compute_features_2d(sigs_e, fs, fr, {'threshold_kwargs': dict(thr)}, axis=None, n_jobs=1, progress=v))
+        add('option', 'progress', 'BycycleGroup.fit(axis=None)', pos, lambda v=v: BycycleGroup(thresholds=dict(thr)).fit(sigs_e, fs, fr, axis=None, n_jobs=1, progress=v))
+    from bycycle.utils.dataframes import rename_extrema_df
+    for pos, v in with_odd_unknowns((('valid1', 'peak'), ('valid2', 'trough'), ('unknown', 'middle'))):
+        add('option', 'center_extrema', 'rename_extrema_df', pos, lambda v=v: rename_extrema_df(v, df_s.copy()))
+    for pos, v in (('negative', -1), ('zero', 0), ('inside', 2)):
+        add('min_n_cycles', 'min_n_cycles', 'compute_burst_fraction', pos, lambda v=v: compute_burst_fraction(df_s, sig, fs, fr, min_n_cycles=v))
+        add('min_n_cycles', 'min_n_cycles', 'compute_burst_features(amp)', pos,
+            lambda v=v: compute_burst_features(df_s, sig, burst_method='amp', burst_kwargs={'fs': fs, 'f_range': fr, 'min_n_cycles': v}))
     # unknown options in degenerate contexts (boundary removing every extremum, two-row tables, single signals): validation must not depend on the data
     kind = 'option_in_degenerate_context'
+    add(kind, 'burst_method', 'compute_features_2d(axis=None, second entry of a per-epoch list)', 'unknown',
+        lambda: compute_features_2d(sigs_e, fs, fr, [{'threshold_kwargs': dict(thr)}, {'threshold_kwargs': dict(thr), 'burst_method': 'foo'}, {'threshold_kwargs': dict(thr)}], axis=None))
+    add(kind, 'min_n_cycles', 'detect_bursts_cycles(table without cycles)', 'unknown', lambda: detect_bursts_cycles(df_c.iloc[0:0].copy(), **dict(thr, min_n_cycles=-1)))
+    add(kind, 'min_n_cycles', 'detect_bursts_amp(table without cycles)', 'unknown', lambda: detect_bursts_amp(df_a.iloc[0:0].copy(), burst_fraction_threshold=.5, min_n_cycles=-1))
     add(kind, 'first_extrema', 'find_extrema(boundary removes all extrema)', 'unknown', lambda: find_extrema(sig, fs, fr, first_extrema='both', boundary=len(sig)))
     add(kind, 'first_extrema', 'find_extrema(boundary leaves one extremum)', 'unknown', lambda: find_extrema(sig, fs, fr, first_extrema='both', boundary=len(sig) // 2 - 4))
     add(kind, 'center_extrema', 'compute_features(large boundary)', 'unknown', lambda: compute_features(sig, fs, fr, center_extrema='middle', threshold_kwargs=dict(thr), find_extrema_kwargs={'boundary': len(sig)}))
